@@ -51,6 +51,9 @@ def run(ctx):
 
     # ------------------------------------------------------------------ C13-exports-only
     ctx.rule("C13-exports-only", "only exported names leave the library, under their external names")
+    from . import privacy
+    privacy.require_restricted(ctx, "C13-exports-only", fb, "interpreter::library::Library", ["0", "1"],
+                               "an importer could read a library's private definitions directly instead of its export list")
     libnew = [(b, t) for b, t in eld.calls() if callee_matches(t, "interpreter::library::Library::new")]
     if len(libnew) != 1:
         ctx.report("C13-exports-only", "Library::new", "expected one Library::new, found %d" % len(libnew), where_of(eld))
